@@ -99,6 +99,11 @@ func c17Callback(key string) (any, bool) {
 	switch name {
 	case "obs0":
 		return func(in system.Collection) (system.Collection, error) { observe("obs0", in); return in, nil }, true
+	case "obsRetS": // observes, answers the String "abc"
+		return func(in system.Collection) (system.Collection, error) {
+			observe("obsRetS", in)
+			return system.Collection{system.String("abc")}, nil
+		}, true
 	case "obsT": // observes, answers true
 		return func(in system.Collection) (system.Collection, error) {
 			observe("obsT", in)
@@ -543,6 +548,18 @@ func (e *c17Exec) runOp(in *inputs, oc *opCtx, ci, oi int, op *C17Op) string {
 	case "iif-call": // iif(true, obs0()) on the input
 		expectItems(input, "the collection the callback returned (the input)")
 		e.expectObs(where, oc, [][]any{input}, [][]any{nil})
+	case "call-nested": // F.os(rs()): the argument expression is itself a custom call - evaluated once, against F
+		if gerr != nil {
+			e.violate("custom-function", "good-argument-rejected:nested", fmt.Sprintf("%s: a single String argument produced by another custom function, but the call failed: %v", where, gerr))
+			break
+		}
+		e.expectObs(where, oc, [][]any{items, items}, [][]any{nil, {system.String("abc")}})
+		if len(oc.obs) == 2 && (oc.obs[0].fn != "obsRetS" || oc.obs[1].fn != "obsS") {
+			e.violate("custom-function", "invocation-order", fmt.Sprintf("%s: callbacks ran as %s, %s", where, oc.obs[0].fn, oc.obs[1].fn))
+		}
+		if ok, d := sameItems(got, []any{system.String("abc")}); !ok {
+			e.violate("custom-function", "return-not-passed-through", fmt.Sprintf("%s: %s", where, d))
+		}
 	case "callS": // F.obsS(<arg>)
 		e.checkTypedCall(where, oc, op, got, gerr, items)
 	case "callH": // Patient.oh(name...): the callback's input is the resource, the argument one of its names
